@@ -34,7 +34,7 @@ BUDGET = {"quick": {"runs": 300, "chunk": 6}, "thorough": {"runs": 30000, "chunk
 COMPONENTS = {"real": ["Solution.to_hdf5/from_hdf5", "Device/Polygon/Layer/Mesh/EdgeMesh (de)serialisation", "Parameter/CompositeParameter pickling", "SolverOptions round trip", "seeding a run from a reloaded solution"], "stub": ["wall clock (simulated, so time_created is reproducible)"]}
 ASSUMPTIONS = ["Only state produced by simulated runs is round-tripped; the quantifier over all devices/option combinations/expression trees is sampled, not covered."]
 
-OPS = ["reload", "reload-step", "copy", "orphan-copy", "moved-save", "moved-save-inplace", "device-h5", "device-h5-nomesh", "mesh-h5", "mesh-h5-compressed", "pickle-device", "pickle-params", "seed-run", "equality"]
+OPS = ["reload", "reload-step", "copy", "orphan-copy", "moved-save", "moved-save-inplace", "dynamics-h5", "device-h5", "device-h5-nomesh", "mesh-h5", "mesh-h5-compressed", "pickle-device", "pickle-params", "seed-run", "equality"]
 MESH_ARRAYS = ("sites", "elements", "boundary_indices", "areas", "dual_sites")
 EDGE_ARRAYS = ("edges", "centers", "boundary_edge_indices", "directions", "edge_lengths", "dual_edge_lengths")
 
@@ -52,7 +52,7 @@ def gen(seed, idx, tier):
             "mesh": {"max_edge_length": rnd.choice([0.45, 0.5, 0.55]), "smooth": 0},
         }
         return {"mesh_only": True, "device": dev, "options": {}, "drive": {"field": {"kind": "zero"}}, "faults": [], "storage_ops": ["device-h5", "mesh-h5", "mesh-h5-compressed", "pickle-device", "device-h5-nomesh"]}
-    scn = scen.gen_physics(rnd, steps=(2, 10), dt_choices=[1e-3, 0.01, 0.05], screening=rnd.random() < 0.08, refuse=0.0)
+    scn = scen.gen_physics(rnd, steps=(2, 10), dt_choices=[1e-3, 0.01, 0.05], screening=rnd.random() < 0.15, refuse=0.0)
     T = scn["options"]["solve_time"]
     if rnd.random() < 0.5:
         B0 = scn["drive"]["field"].get("B", 0.1) * 0.5
@@ -392,6 +392,26 @@ def run(scn):
                         r = cmp_arrays(getattr(re.tdgl_data, name), getattr(re2.tdgl_data, name), f"moved {name}")
                         if r:
                             diffs.append(r)
+                    report(op, diffs)
+                elif op == "dynamics-h5":
+                    # the per-step records saved on their own (DynamicsData.to_hdf5 into a group) and read back
+                    from tdgl.solution.data import DynamicsData
+
+                    p2 = os.path.join(work, f"dyn{j}.h5")
+                    dyn = sol.dynamics
+                    with h5py.File(p2, "w") as f:
+                        dyn.to_hdf5(f.create_group("dynamics"))
+                    with h5py.File(p2, "r") as f:
+                        d2 = DynamicsData.from_hdf5(f["dynamics"])
+                    diffs = []
+                    for name in ("dt", "time", "mu", "theta", "screening_iterations"):
+                        a_, b_ = getattr(dyn, name), getattr(d2, name)
+                        if (a_ is None) != (b_ is None):
+                            diffs.append(f"dynamics.{name}: {'None' if a_ is None else 'array'} saved, {'None' if b_ is None else 'array'} read back")
+                        elif a_ is not None:
+                            r = cmp_arrays(a_, b_, "dynamics." + name)
+                            if r:
+                                diffs.append(r)
                     report(op, diffs)
                 elif op in ("device-h5", "device-h5-nomesh"):
                     p2 = os.path.join(work, f"dev{j}.h5")
